@@ -157,6 +157,16 @@ type cond struct {
 	rsql  string
 	rargs []interface{}
 	desc  string
+	// or: the condition joins the chain with .Or(..) instead of .Where(..) (never the first one)
+	or bool
+}
+
+// call: the chain call of the condition as Go text.
+func (c cond) call() string {
+	if c.or {
+		return "Or(" + strings.TrimPrefix(c.desc, "Where(")
+	}
+	return c.desc
 }
 
 type assign struct {
@@ -228,6 +238,12 @@ type op struct {
 	ocKeys   map[string]bool
 	ocTarget *ocCond
 	ocCols   bool
+	// soft-delete models, update family: dead = the keys of the rows seeded as soft-deleted (deleted_at
+	// holds a time) for this operation; unscoped = the chain carries Unscoped() (first call of the chain
+	// or, unscopedLast, the last one before the finisher): only then the dead rows are addressable
+	dead         map[string]bool
+	unscoped     bool
+	unscopedLast bool
 	// doNothingWhere: the recorded INSERT of a conditional UpdateAll reads "DO NOTHING WHERE" (set by run)
 	doNothingWhere bool
 }
@@ -701,6 +717,15 @@ func (g *gen) target(o *op, structForm, single bool) {
 		if r.Chance(1, 4) {
 			o.conds = append(o.conds, g.cond(nil))
 		}
+		// alternatives: Where(a)[.Where(b)].Or(c)[.Or(d)] selects (a AND b) OR c OR d. Only behind every
+		// Where of the chain and only with a key-less Model value (see Engine.Assumptions)
+		if r.Chance(2, 5) {
+			for i, n := 0, r.Range(1, 2); i < n; i++ {
+				c := g.cond(nil)
+				c.or = true
+				o.conds = append(o.conds, c)
+			}
+		}
 	case "model-key+where":
 		k := g.seedKey()
 		o.modelKeys = []lval{k}
@@ -1124,6 +1149,19 @@ func (g *gen) genOp(kind string) *op {
 	}
 	g.listForms(o)
 	g.addKids(o)
+	if updateKind(kind) && m.soft {
+		// soft-delete model: some of the seeded rows are soft-deleted while this update runs (three
+		// operations in four); one chain in five is Unscoped
+		o.dead = map[string]bool{}
+		if r.Chance(3, 4) {
+			p := r.Perm(len(m.rows))
+			for _, i := range p[:r.Range(1, len(m.rows)-1)] {
+				o.dead[normL(m.rows[i].key)] = true
+			}
+		}
+		o.unscoped = r.Chance(1, 5)
+		o.unscopedLast = r.Bool()
+	}
 	if updateKind(kind) {
 		if r.Chance(1, 3) {
 			g.genReturning(o)
@@ -1281,7 +1319,8 @@ func (g *gen) followUp(o *op) *op {
 		tform: o.tform, useModel: o.useModel, modelKeys: o.modelKeys, modelSlice: o.modelSlice, modelElems: o.modelElems,
 		zeroLast: o.zeroLast, modelArray: o.modelArray, modelElemPtr: o.modelElemPtr, conds: o.conds,
 		sel: o.sel, omit: o.omit, selForm: o.selForm, omitJoin: o.omitJoin, selMode: o.selMode,
-		returning: o.returning, retCols: o.retCols, modelKids: o.modelKids}
+		returning: o.returning, retCols: o.retCols, modelKids: o.modelKids,
+		dead: o.dead, unscoped: o.unscoped, unscopedLast: o.unscopedLast}
 	n.hooks = kind == "updates-struct" || kind == "updates-map" || kind == "update"
 	switch kind {
 	case "updates-struct", "updatecolumns-struct":
@@ -1386,6 +1425,10 @@ func exec(db *gorm.DB, m *model, o *op) (pre, chain, fin string, handle, res *go
 		tx = db.Table(m.table)
 		desc = fmt.Sprintf("db.Table(%q)", m.table)
 	}
+	if o.unscoped && !o.unscopedLast {
+		tx = tx.Unscoped()
+		desc += ".Unscoped()"
+	}
 	var selfPtr reflect.Value
 	var selfLit string
 	if o.valueIsModel {
@@ -1441,8 +1484,12 @@ func exec(db *gorm.DB, m *model, o *op) (pre, chain, fin string, handle, res *go
 				return
 			}
 			for _, c := range o.conds {
-				tx = tx.Where(c.gq, c.gargs...)
-				desc += "." + c.desc
+				if c.or {
+					tx = tx.Or(c.gq, c.gargs...)
+				} else {
+					tx = tx.Where(c.gq, c.gargs...)
+				}
+				desc += "." + c.call()
 			}
 		},
 		func() { // Select
@@ -1572,6 +1619,10 @@ func exec(db *gorm.DB, m *model, o *op) (pre, chain, fin string, handle, res *go
 	}
 	for _, i := range order {
 		steps[i]()
+	}
+	if o.unscoped && o.unscopedLast {
+		tx = tx.Unscoped()
+		desc += ".Unscoped()"
 	}
 	pre, fin, res = finish(tx, m, o, selfPtr, selfLit)
 	return pre, desc, fin, tx, res
